@@ -50,6 +50,7 @@ type dgramRec struct {
 	raw           []byte   // SCION: the datagram on the underlay
 	front         string   // SCION: the parser's view, as a case-file value
 	vi            viewInfo // SCION: end-to-end extension, authenticator verdict, timestamp option
+	delayMs       int64    // the peer waits this long before it sends the datagram (recipe 27)
 }
 
 type reqRec struct {
@@ -376,6 +377,49 @@ func authExt(key, nonce, pt, ad []byte) []byte {
 	return ext(0x404, body)
 }
 
+// forgedAuth: an authenticator field (and what follows it) that needs no key.
+//
+//	0 nonce 16, ciphertext length 0, field padded to 28 bytes
+//	1 nonce 16, ciphertext length 0, field of 24 bytes followed by another field
+//	2 nonce 16, ciphertext of 1..15 bytes (shorter than a tag)
+//	3 nonce length 0, ciphertext 16 bytes
+//	4 a field that is only its 4-byte header, followed by 24 bytes
+//	5 nonce 16, ciphertext length field 0 although 16 bytes follow
+//	6 nonce 16, ciphertext 16 random bytes (a made-up tag)
+//	7 nonce 16, ciphertext length 0, field of 24 bytes at the very end (too short to be looked at)
+func forgedAuth(v int, p2 int64, r *lib.Rng) []byte {
+	field := func(nl, cl int, nonce, ct []byte, total int) []byte {
+		body := make([]byte, 4)
+		binary.BigEndian.PutUint16(body, uint16(nl))
+		binary.BigEndian.PutUint16(body[2:], uint16(cl))
+		body = append(append(body, nonce...), ct...)
+		for len(body)+4 < total {
+			body = append(body, 0)
+		}
+		return ext(0x404, body)
+	}
+	nonce := r.Bytes(16)
+	switch v {
+	case 0:
+		return field(16, 0, nonce, nil, 28+4*int(p2%3))
+	case 1:
+		return append(field(16, 0, nonce, nil, 24), ext(0x9999, r.Bytes(8))...)
+	case 2:
+		n := 1 + int(p2%15)
+		return field(16, n, nonce, r.Bytes(n), 28)
+	case 3:
+		return field(0, 16, nil, r.Bytes(16), 28)
+	case 4:
+		return append([]byte{4, 4, 0, 4}, r.Bytes(24)...)
+	case 5:
+		return field(16, 0, nonce, r.Bytes(16), 40)
+	case 6:
+		return field(16, 16, nonce, r.Bytes(16), 40)
+	default:
+		return field(16, 0, nonce, nil, 24)
+	}
+}
+
 const usFrac = 4295 // about one microsecond in units of 2^-32 s
 
 // build turns one recipe into a datagram for request rq; idx is its position in the script.
@@ -405,6 +449,7 @@ func (w *worker) build(rc recipe, rq *reqRec, idx int) (payload []byte, fromServ
 	pt := ext(0x204, r.Bytes(100))
 	strip := 0 // 1: no authenticator, 2: no uid, 3: bare header
 	post := func(b []byte) []byte { return b }
+	forged := false
 	var clear [][]byte // cleartext cookie fields in front of the authenticator
 	var trailer []byte // bytes behind the authenticator
 
@@ -606,6 +651,14 @@ func (w *worker) build(rc recipe, rq *reqRec, idx int) (payload []byte, fromServ
 		for i := int64(0); i <= rc.p1/2%2; i++ {
 			clear = append(clear, r.Bytes(100))
 		}
+	case 26:
+		// keyless forgeries: the unique identifier is copied from the request on the wire, the
+		// authenticator field is made up without any key (forgedAuth below)
+		if wantInter {
+			interleavedBase()
+		}
+		strip = 1
+		forged = true
 	case 25:
 		// genuine, without a new cookie (empty plaintext): the pool is not replenished
 		if wantInter {
@@ -635,6 +688,9 @@ func (w *worker) build(rc recipe, rq *reqRec, idx int) (payload []byte, fromServ
 		}
 		if strip != 1 && len(key) == 32 {
 			b = append(b, authExt(key, nonce, pt, append([]byte(nil), b...))...)
+		}
+		if forged {
+			b = append(b, forgedAuth(int(rc.p1), rc.p2, r)...)
 		}
 		b = append(b, trailer...)
 	}
@@ -720,6 +776,9 @@ func (w *worker) udpLoop(me, otherConn *net.UDPConn, server, other netip.Addr) {
 			}
 			pl, fs := w.build(rc, rq, i)
 			d := dgramRec{fromServer: fs, payload: pl, otherPort: rc.kind == 21}
+			if rc.kind == 27 {
+				d.delayMs = rc.p1
+			}
 			if w.nts {
 				w.ntsFacts(&d, rq)
 			}
@@ -742,6 +801,9 @@ func (w *worker) udpLoop(me, otherConn *net.UDPConn, server, other netip.Addr) {
 				c = otherConn
 			} else if d.otherPort {
 				c = w.connC
+			}
+			if d.delayMs > 0 {
+				time.Sleep(time.Duration(d.delayMs) * time.Millisecond)
 			}
 			_, _ = c.WriteToUDPAddrPort(d.payload, addr)
 		}
